@@ -107,9 +107,11 @@ func (p *streamstatsProcessor) Process(iqr *iqr.IQR) (*iqr.IQR, error) {
 		knownValues[resultCol] = make([]sutils.CValueEnclosure, iqr.NumberOfRecords())
 	}
 
+	// p.currentIndex (position in the global window) and p.currentBucketKey
+	// (group of the previous record, for reset_on_change) describe the whole
+	// stream, not this batch; they carry over from the previous Process()
+	// call and are only cleared by Rewind().
 	bucketKey := ""
-	p.currentBucketKey = bucketKey
-	p.currentIndex = 0
 
 	for i := 0; i < iqr.NumberOfRecords(); i++ {
 		record := make(map[string]interface{})
